@@ -889,6 +889,20 @@ def mon_C16(ctx, k, sc, tr, stats):
     mon_C04(ctx, k, sc, tr, stats, check_competency=True)
     mon_C16_oversuitable(ctx, k, sc, tr, stats)
     mon_C16_pick(ctx, k, sc, tr, stats)
+    # the establishment test the multi-host pool makes itself ("land") or delegates ("infect") must be
+    # the documented one for both arrival behaviours: same decision rule, deterministic tester 1 - p,
+    # every establishment tested (the checks of C12 on the tape's establish events)
+    class EstablishView:
+        def __init__(self, c):
+            self._c = c
+
+        def __getattr__(self, n):
+            return getattr(self._c, n)
+
+        def violation(self, key, what, case=None, detail=None):
+            if key.startswith("C12.establish."):
+                self._c.violation("C16.%s.%s" % (sc.kv["arrival"][0], key[len("C12."):]), what, case, detail)
+    mon_C12(EstablishView(ctx), k, sc, tr, {})
     if sc.nhosts >= 2:
         # pests leaving or arriving are split among the hosts so that the pool as a whole behaves
         # like the sum of its hosts: what the overpopulation rule of C17 demands of the TOTALS
